@@ -45,6 +45,8 @@ def gen(rng, broker, tier):
             m["reject"] = rng.random() < 0.7
             if m["reject"]:
                 m["pause_us"] = rng.choice([0, 2000, 30_000, 200_000])
+        if rng.random() < 0.08:
+            m["big"] = rng.choice([70_000, 200_000])  # a body of several frames / segments, followed by small ones
         if not m.get("past_us") and rng.random() < 0.1:
             # deferred until an instant which has already passed (no period): immediately deliverable, ordinary FIFO member
             m["until_past_us"] = rng.choice([1000, 1_000_000, 3_600_000_000])
@@ -102,7 +104,8 @@ async def _main(sim, sc, out):
                 delay = DelayProperties(next_execution_time=sim.clock.now() - timedelta(microseconds=m["past_us"]))
             elif m.get("until_past_us"):
                 delay = DelayProperties(delay_until=sim.clock.now() - timedelta(microseconds=m["until_past_us"]))
-            await mb.enqueue(key, f'{{"m":"{m["id"]}"}}', Parameters(timestamp=sim.clock.now(), delay=delay))
+            body = f'{{"m":"{m["id"]}"}}' if not m.get("big") else '{"m":"' + m["id"] + '","pad":"' + "x" * m["big"] + '"}'
+            await mb.enqueue(key, body, Parameters(timestamp=sim.clock.now(), delay=delay))
             enq_end[m["id"]] = rec._next()
         prod_done[0] = True
 
